@@ -32,12 +32,14 @@ def marked_table(rep, k, which):
 
     def rows(st):
         out = []
-        for replace in (False, True):
-            for both in ((False, True) if k else (False,)):
+        for replace, both, rev in [(r, b, v) for r in (False, True) for b in ((False, True) if k else (False,)) for v in ((False, True) if k >= 2 else (False,)) if not (b and v)]:
+            if True:
                 def code(I):
                     params = Tup([Lin.num(1), Lin.num(2), Lin.num(1), dur, "NONE", "not compressed"])
                     af = MockObj({"getparams": PyFunc(lambda I_: params)})
-                    lst = Lst([Tup([s, e]) for s, e in ivs])
+                    # the caller's list need not be in temporal order ("all lists of disjoint intervals"): the kept stretches
+                    # still come back in temporal order
+                    lst = Lst([Tup([s, e]) for s, e in (ivs[::-1] if rev else ivs)])
                     kw = {}
                     if which == "keep" or both:
                         kw["keepIntervals"] = lst
@@ -89,7 +91,7 @@ def marked_table(rep, k, which):
                         if a[0] != b[0] or len(a) != len(b) or any(not num_equal(I, p, q) for p, q in zip(a[1:], b[1:])):
                             return "stretches %s, expected %s" % (show(g), show([Tup(list(x)) for x in w]))
                     return None
-                out.append(compare_outcomes(I, (which, "replace" if replace else "drop", "both lists" if both else "one list"), got, want, eq=eq))
+                out.append(compare_outcomes(I, (which, "replace" if replace else "drop", "both lists" if both else ("one list, given in reverse order" if rev else "one list")), got, want, eq=eq))
         return out
 
     run_states(at, rows, tr)
@@ -102,7 +104,7 @@ def _rank(O, x, allx):
 
 def run(rep, tier):
     idx = common.ctx()
-    rep.rule("K-marked", "abstract interpretation of readFramesAtTimes (with _computeKeepDeleteIntervals and utils.invertIntervalList inlined, file reads and the generator replaced by tokens) over every weak order of up to 2 marked intervals and the duration: the kept stretches are read in order with their own bounds, each dropped stretch is replaced by generated audio of the same duration (or skipped), both lists or times beyond the recording raise ArgumentError")
+    rep.rule("K-marked", "abstract interpretation of readFramesAtTimes (with _computeKeepDeleteIntervals and utils.invertIntervalList inlined, file reads and the generator replaced by tokens) over every weak order of up to 2 marked intervals and the duration, the list given in temporal and in reverse order: the kept stretches are read in order with their own bounds, each dropped stretch is replaced by generated audio of the same duration (or skipped), both lists or times beyond the recording raise ArgumentError")
     rep.rule("K-wiring", "extractSubwav / splitAudioOnTier: one getFrames(start,end)+outputFrames per entry with the entry's own bounds; outputFrames copies the source parameters; cropped textgrids use crop(start,end,mode,True) with mode strict iff noPartialIntervals; generators produce round(rate*duration) samples")
     rep.not_decided.append("sample-exactness of file reads (wave module); the C16 rules cover the time->sample conversion")
     for which in ("keep", "delete"):
